@@ -53,7 +53,14 @@ func run(s *kernel.Sim, c *scen.Case) {
 	s.Quantum = 5 * time.Minute
 	bg := context.Background()
 	// a little latency so that time passes during the exchange
-	net0 := simnet.New(s, simnet.Config{MaxLatency: 40 * time.Millisecond, Segment: t.Choose("seg", 2) == 1, ShortReads: t.Choose("short", 2) == 1})
+	ncfg := simnet.Config{MaxLatency: 40 * time.Millisecond, Segment: t.Choose("seg", 2) == 1, ShortReads: t.Choose("short", 2) == 1}
+	if p.Shape == "fs" {
+		// the server names its directory with os.MkdirTemp, whose decimal suffix (runtime randomness
+		// no seed reaches) has 1-10 digits: with cuts drawn per byte count the rest of the run would
+		// differ between two executions of one seed. Whole writes, whole reads: the same draws whatever the length.
+		ncfg.Segment, ncfg.ShortReads = false, false
+	}
+	net0 := simnet.New(s, ncfg)
 	tw := hs.NewTokenWorld(t)
 	var methods []security.AuthMethod
 	alevel := security.SecurityRequired
